@@ -98,6 +98,7 @@ func groupKey(v cellVerdict) string {
 func checkC02(c *Check) {
 	L := c.L
 	c.Expl = "Structural clauses of 'every accepted program is compiled completely', decided cell-wise by evaluating the checker's and the generator's operator tables abstractly (engine E2: partial evaluation of the Visit* methods over operator constants and operand type classes, with a typed model of ddptypes' predicates and of the llir builder): every cell the checker admits has a lowering that does not reach c.err/panic (R2.1), leaves the IR class the checker's result type maps to (R2.2) and builds only well-typed IR (R2.3); every operator/node enum is covered by the String(), checker and generator switches (R2.4); every runtime symbol the generator declares is defined by the C runtime, libc/libm or the generator itself (R2.5). Bounds: the type classes listed in coverage.classes; user-defined overloads lower to calls and are out of scope. Not decided: assignment/argument/return contexts, struct and generic lowering, 'LLVM accepts the module' as a whole."
+	checkC02Phis(c, L)
 	t := computeCheckerTables(L, c.Tier)
 	cells := computeAdmittedGenCells(L, t)
 	r1 := c.Rule("R2.1", "every checker-admitted operator cell has a lowering (no c.err / panic)", 100)
@@ -203,4 +204,60 @@ func checkC02(c *Check) {
 	}
 	checkEnumExhaustive(c)
 	checkToIrType(c, t.Classes)
+}
+
+// R2.7: phi nodes name exactly the predecessors of their block, also when an operand's code spans several basic blocks.
+func checkC02Phis(c *Check, L *Loaded) {
+	r := c.Rule("R2.7", "every phi names exactly the blocks that branch to its block, also when an operand compiles to several basic blocks", 3)
+	in, mk := newGeneratorInterp(L)
+	B, Z, T := &DT{Kind: "WAHRHEITSWERT"}, &DT{Kind: "ZAHL"}, &DT{Kind: "TEXT"}
+	ops := map[string]opInfo{}
+	for _, o := range operatorConsts(L, "BinaryOperator") {
+		ops[o.Name] = o
+	}
+	for _, o := range operatorConsts(L, "TernaryOperator") {
+		ops[o.Name] = o
+	}
+	type sc struct {
+		key, method, kind string
+		op                string
+		names             []string
+		ds                []*DT
+	}
+	for _, s := range []sc{
+		{"VisitBinaryExpr|BIN_AND", "VisitBinaryExpr", "ast.BinaryExpr", "BIN_AND", []string{"lhs", "rhs"}, []*DT{B, B}},
+		{"VisitBinaryExpr|BIN_OR", "VisitBinaryExpr", "ast.BinaryExpr", "BIN_OR", []string{"lhs", "rhs"}, []*DT{B, B}},
+		{"VisitTernaryExpr|TER_FALLS (Zahl)", "VisitTernaryExpr", "ast.TernaryExpr", "TER_FALLS", []string{"lhs", "mid", "rhs"}, []*DT{Z, B, Z}},
+		{"VisitTernaryExpr|TER_FALLS (Text)", "VisitTernaryExpr", "ast.TernaryExpr", "TER_FALLS", []string{"lhs", "mid", "rhs"}, []*DT{T, B, T}},
+	} {
+		var bad []string
+		runs, phis := 0, 0
+		fields := map[string]string{"lhs": "Lhs", "mid": "Mid", "rhs": "Rhs"}
+		for _, multi := range []bool{false, true} {
+			node := genNode(s.kind, opVal(ops[s.op]), s.names, s.ds)
+			for _, nm := range s.names {
+				node.get(fields[nm]).(*Obj).set("multiblock", boolV(multi))
+			}
+			in.RunAll(64, func() {
+				cobj := mk()
+				in.CallFunc(L.Fn("src/compiler.(*compiler)."+s.method), cobj, []Val{node})
+				for _, e := range in.Events {
+					if e.Kind == "cerr" || e.Kind == "panic" {
+						return
+					}
+					if e.Kind == "phi" {
+						phis++
+					}
+				}
+				runs++
+				bad = append(bad, phiPredecessorProblems(in)...)
+			})
+		}
+		key := "compiler.(*compiler)." + s.key
+		if runs == 0 || phis == 0 {
+			r.Und(key, token.NoPos, "no phi observed")
+			continue
+		}
+		r.Decide(len(bad) == 0, key, token.NoPos, "phi incoming blocks are the blocks the operands' code ends in", strings.Join(uniq(bad), "; "))
+	}
 }
